@@ -381,12 +381,11 @@ def exVal : Validator := { addr := "k0", power := 10, pkAddr := "k0" }
 def exVal2 : Validator := { addr := "k1", power := 5, pkAddr := "k1" }
 
 def exCtx : Ctx :=
-  { blocks := [⟨100, [exVal, exVal2]⟩, ⟨200, [exVal, exVal2]⟩, ⟨300, [exVal]⟩, ⟨400, [exVal]⟩],
+  { blocks := [{ time := 100, vals := [exVal, exVal2] }, { time := 200, vals := [exVal, exVal2] }, { time := 300, vals := [exVal] }, { time := 400, vals := [exVal] }],
     maxAgeBlocks := 1, maxAgeDur := 50,
     H := fun e => match e with | .dv d => (d.a.bid + 7 * d.b.bid).toNat | .lca l => l.tag.length,
     S := fun _ => 300,
-    sigOK := fun pk v => pk == v.sig,
-    lcaOK := fun _ _ => true }
+    sigOK := fun pk v => pk == v.sig }
 
 def exVote (bid : Int) : Vote :=
   { height := 2, round := 0, typ := 1, addr := "k0", bid := bid, ts := 0, idx := 0, sig := "k0" }
@@ -414,7 +413,7 @@ example : MonoTime exCtx := by
 /-- the genuine pair of conflicting votes is a `GoodPair` -/
 theorem exGood : GoodPair exCtx (exVote 2) (exVote 1) := by
   intro b hb t d hd
-  have : b = ⟨200, [exVal, exVal2]⟩ := by
+  have : b = { time := 200, vals := [exVal, exVal2] } := by
     simp [blockAt, exVote, exCtx] at hb; exact hb.symm
   subst this
   simp [newDVE, exVote, exVal, exVal2, totalPower] at hd
